@@ -355,7 +355,7 @@ class sptensor:
             # Squeeze to convert from column vector to row vector
             newvals = accumarray(
                 loc.flatten(),
-                np.squeeze(vals),
+                np.squeeze(vals, axis=1),
                 size=newsubs.shape[0],
                 func=function_handle,
             )
